@@ -193,20 +193,36 @@ Section MarkerProofs.
     cbn [forallb]. destruct Hem as (_ & _ & _ & Hv & _). rewrite Hv, IH. reflexivity.
   Qed.
 
-  Lemma marker_step_id : forall accs next I m,
+  (** one marker of the genesis whose account number is the one found (in the accounts written so
+      far, else at the account of another type): it is written as it is, no fresh number is used *)
+  Lemma marker_step_eq : forall other next A X fr m,
+    mv m = true ->
+    match tget (k_account (mr_addr m)) A with
+    | Some ex => mr_accnum ex = mr_accnum m
+    | None => other (mr_addr m) = Some (mr_accnum m)
+    end ->
+    marker_step mv other next (Some (A, X, fr)) m =
+    Some (tset (k_account (mr_addr m)) m A, tset (k_marker (mr_addr m)) (mr_addr m) X, fr).
+  Proof.
+    intros other next A X fr m Hv Hn. unfold marker_step.
+    destruct (tget (k_account (mr_addr m)) A) as [ex|]; rewrite Hn; cbv beta iota zeta;
+      rewrite with_accnum_id, Hv; reflexivity.
+  Qed.
+
+  Lemma marker_step_id : forall other next accs I fr m,
     tget (k_account (mr_addr m)) accs = Some m -> mv m = true ->
     tget (k_marker (mr_addr m)) I = Some (mr_addr m) ->
-    marker_step mv accs next (Some (accs, I)) m = Some (accs, I).
+    marker_step mv other next (Some (accs, I, fr)) m = Some (accs, I, fr).
   Proof.
-    intros accs next I m Hg Hv Hi. unfold marker_step. rewrite Hg. rewrite with_accnum_id. rewrite Hv.
+    intros other next accs I fr m Hg Hv Hi. rewrite marker_step_eq; [| exact Hv | rewrite Hg; reflexivity].
     rewrite (tset_same_id _ _ _ _ Hg). rewrite (tset_same_id _ _ _ _ Hi). reflexivity.
   Qed.
 
-  Lemma marker_fold_id : forall accs next I ix ms,
+  Lemma marker_fold_id : forall other next accs I fr ix ms,
     Forall2 (erel accs) ix ms -> Forall (fun e => tget (fst e) I = Some (snd e)) ix ->
-    fold_left (marker_step mv accs next) ms (Some (accs, I)) = Some (accs, I).
+    fold_left (marker_step mv other next) ms (Some (accs, I, fr)) = Some (accs, I, fr).
   Proof.
-    intros accs next I ix ms H. induction H as [|e m ix ms Hem Hl IH]; intro Hall; [reflexivity|].
+    intros other next accs I fr ix ms H. induction H as [|e m ix ms Hem Hl IH]; intro Hall; [reflexivity|].
     inversion Hall as [|? ? He Hall']; subst. cbn [fold_left].
     destruct Hem as (Hg & Ha & Hk & Hv & _).
     rewrite marker_step_id.
@@ -214,6 +230,74 @@ Section MarkerProofs.
     - rewrite Ha. exact Hg.
     - exact Hv.
     - rewrite Ha. rewrite <- Hk. exact He.
+  Qed.
+
+  (** the same loop over an account store that holds only (some of) the state's own accounts and
+      where the accounts of another type carry the markers' numbers: a run of plain writes *)
+  Lemma marker_fold_fresh : forall other next accs ms A X fr,
+    tsorted A -> (forall k x, tget k A = Some x -> tget k accs = Some x) ->
+    Forall (fun m => tget (k_account (mr_addr m)) accs = Some m /\ mv m = true /\
+                     other (mr_addr m) = Some (mr_accnum m)) ms ->
+    fold_left (marker_step mv other next) ms (Some (A, X, fr)) =
+    Some (set_all (map (fun m => (k_account (mr_addr m), m)) ms) A,
+          set_all (map (fun m => (k_marker (mr_addr m), mr_addr m)) ms) X, fr).
+  Proof.
+    intros other next accs ms. induction ms as [|m ms IH]; intros A X fr Hs Hsub Hall; [reflexivity|].
+    inversion Hall as [|? ? (Hg & Hv & Ho) Hall']; subst. cbn [fold_left map].
+    rewrite marker_step_eq; [| exact Hv |].
+    2:{ destruct (tget (k_account (mr_addr m)) A) as [ex|] eqn:E; [|exact Ho].
+        apply Hsub in E. rewrite Hg in E. injection E as E. subst ex. reflexivity. }
+    rewrite IH; [reflexivity | apply tset_sorted; exact Hs | | exact Hall'].
+    intros k x Hk. destruct (kcmp k (k_account (mr_addr m))) eqn:E.
+    - apply kcmp_eq in E. subst k. rewrite (tget_tset_same _ _ _ _ Hs) in Hk. rewrite Hg. exact Hk.
+    - rewrite tget_tset_other in Hk; [apply Hsub; exact Hk | exact Hs | rewrite E; discriminate].
+    - rewrite tget_tset_other in Hk; [apply Hsub; exact Hk | exact Hs | rewrite E; discriminate].
+  Qed.
+
+  (** the registry entries are those of the exported markers, in order *)
+  Lemma registry_of_exported : forall accs ix ms,
+    Forall2 (erel accs) ix ms -> map (fun m => (k_marker (mr_addr m), mr_addr m)) ms = ix.
+  Proof.
+    intros accs ix ms H. induction H as [|[k a] m ix ms Hem Hl IH]; [reflexivity|].
+    cbn [map]. rewrite IH. destruct Hem as (_ & Ha & Hk & _). cbn [fst snd] in Ha, Hk.
+    rewrite Ha, <- Hk. reflexivity.
+  Qed.
+
+  (** writing the exported markers into an empty account store gives the accounts table back *)
+  Lemma accounts_rebuilt : forall accs ms,
+    acc_ok accs -> Forall2 (erel accs) (tbuild (registry_of mv accs)) ms ->
+    tbuild (map (fun m => (k_account (mr_addr m), m)) ms) = accs.
+  Proof.
+    intros accs ms Hok HF.
+    assert (Hms : forall m, In m ms -> tget (k_account (mr_addr m)) accs = Some m).
+    { intros m Hm. destruct (Forall2_In_right _ _ _ _ _ _ HF Hm) as [e [_ (Hg & Ha & _)]].
+      rewrite Ha. exact Hg. }
+    assert (Hfwd : forall k v, tget k (tbuild (map (fun m => (k_account (mr_addr m), m)) ms)) = Some v ->
+                               tget k accs = Some v).
+    { intros k v H. unfold tbuild in H. apply tget_set_all_in in H; [|constructor].
+      destruct H as [H|H]; [|cbn [tget] in H; discriminate H].
+      apply in_map_iff in H. destruct H as [m [E Hm]].
+      pose proof (f_equal fst E) as E1. pose proof (f_equal snd E) as E2. cbn [fst snd] in E1, E2.
+      subst k v. apply Hms. exact Hm. }
+    assert (Hbwd : forall k v, tget k accs = Some v ->
+                               tget k (tbuild (map (fun m => (k_account (mr_addr m), m)) ms)) = Some v).
+    { intros k v H. pose proof (tget_In _ _ _ _ H) as Hin.
+      assert (Hk : k = k_account (mr_addr v)).
+      { destruct Hok as [_ Hacc]. rewrite Forall_forall in Hacc. destruct (Hacc _ Hin) as (Hk & _). exact Hk. }
+      pose proof (registry_has accs _ v Hok Hin) as Hreg. apply tget_In in Hreg.
+      destruct (Forall2_In_left _ _ _ _ _ _ HF Hreg) as [o [Ho (Hg & _)]]. cbn [snd] in Hg.
+      rewrite <- Hk, H in Hg. injection Hg as Hg. subst o.
+      unfold tbuild. apply tget_set_all_unique.
+      - constructor.
+      - left. apply in_map_iff. exists v. split; [rewrite Hk; reflexivity | exact Ho].
+      - intros v' Hv'. apply in_map_iff in Hv'. destruct Hv' as [m [E Hm]].
+        pose proof (f_equal fst E) as E1. pose proof (f_equal snd E) as E2. cbn [fst snd] in E1, E2.
+        subst v'. pose proof (Hms _ Hm) as Hgm. rewrite E1, H in Hgm. injection Hgm as Hgm. symmetry. exact Hgm. }
+    destruct Hok as [Hs _]. apply sorted_ext_eq; [apply tbuild_sorted | exact Hs |].
+    intro k. destruct (tget k accs) as [v|] eqn:E.
+    - apply Hbwd. exact E.
+    - destruct (tget k (tbuild (map (fun m => (k_account (mr_addr m), m)) ms))) as [v|] eqn:E2; [|reflexivity].
+      apply Hfwd in E2. rewrite E in E2. discriminate E2.
   Qed.
 
   (** the exported markers come in the order of their length-prefixed addresses *)
@@ -280,25 +364,26 @@ Proof.
   unfold marker_export. rewrite Hms. eexists. reflexivity.
 Qed.
 
-Lemma marker_import_export : forall mv nv next s g,
-  marker_wf mv nv s -> marker_export s = Some g ->
-  marker_import mv nv (mks_accounts s) next g = Some s.
+(** what the marker loop does not touch: validation, deny list, net asset values *)
+Lemma marker_import_rest : forall mv nv pre other next p accs I deny navs ms A X fr,
+  marker_wf mv nv {| mks_params := p; mks_accounts := accs; mks_index := I; mks_deny := deny; mks_navs := navs |} ->
+  Forall2 (erel mv accs) I ms ->
+  fold_left (marker_step mv other next) ms (Some (pre, tbuild (registry_of mv pre), 0%N)) = Some (A, X, fr) ->
+  marker_import mv nv pre other next
+    {| mkg_params := p; mkg_markers := ms; mkg_deny := texport (fun e => e) deny;
+       mkg_navs := map (fun g => (fst g, map snd (snd g))) (regroup mr_addr fst ms (texport (fun e => e) navs)) |} =
+  Some {| mks_params := p; mks_accounts := A; mks_index := X; mks_deny := deny; mks_navs := navs |}.
 Proof.
-  intros mv nv next s g Hwf Hex.
-  destruct (export_ok mv nv s Hwf) as [ms [Hms HF2]].
-  destruct s as [p accs I deny navs]. unfold marker_wf in Hwf.
-  unfold marker_export in Hex.
-  cbn [mks_params mks_accounts mks_index mks_deny mks_navs] in *.
+  intros mv nv pre other next p accs I deny navs ms A X fr Hwf HF2 Hfold.
+  unfold marker_wf in Hwf. cbn [mks_params mks_accounts mks_index mks_deny mks_navs] in Hwf.
   destruct Hwf as (Hs & Hacc & HI & Hds & Hd & Hns & Hn).
-  rewrite Hms in Hex. injection Hex as Hex. subst g.
   assert (Hok : acc_ok mv accs) by (split; assumption).
   assert (HIs : tsorted I) by (rewrite HI; apply tbuild_sorted).
   unfold marker_import. cbn [mkg_params mkg_markers mkg_deny mkg_navs].
   rewrite (markers_valid mv accs I ms HF2).
   rewrite nav_groups_valid.
   2:{ apply Forall_texport_id. eapply Forall_impl; [|exact Hn]. intros kr (_ & _ & Hv & _). exact Hv. }
-  cbn [andb]. rewrite <- HI.
-  rewrite (marker_fold_id mv accs next I I ms HF2 (sorted_tget_all _ I HIs)).
+  cbn [andb]. rewrite Hfold.
   rewrite timport_plain.
   2:{ exact Hds. }
   2:{ eapply Forall_impl; [|exact Hd]. intros [k [a b]] (Hk & Ha & Hb). cbn [fst snd] in *.
@@ -313,4 +398,52 @@ Proof.
     eapply Forall_impl; [|exact Hn]. intros kr (Hk & _). exact Hk.
   - rewrite HI in HF2. apply (navs_covered mv accs ms navs Hok HF2).
     eapply Forall_impl; [|exact Hn]. intros kr (_ & _ & _ & Hm). exact Hm.
+Qed.
+
+(* the auth genesis keeps the MarkerAccounts *)
+Lemma marker_import_export_kept : forall mv nv other next s g,
+  marker_wf mv nv s -> marker_export s = Some g ->
+  marker_import mv nv (mks_accounts s) other next g = Some s.
+Proof.
+  intros mv nv other next s g Hwf Hex.
+  destruct (export_ok mv nv s Hwf) as [ms [Hms HF2]].
+  destruct s as [p accs I deny navs]. unfold marker_export in Hex.
+  cbn [mks_params mks_accounts mks_index mks_deny mks_navs] in *.
+  rewrite Hms in Hex. injection Hex as Hex. subst g.
+  apply (marker_import_rest mv nv accs other next p accs I deny navs ms accs I 0%N Hwf HF2).
+  destruct Hwf as (_ & _ & HI & _). cbn [mks_accounts mks_index] in HI. rewrite <- HI.
+  assert (HIs : tsorted I) by (rewrite HI; apply tbuild_sorted).
+  apply (marker_fold_id mv other next accs I 0%N I ms HF2 (sorted_tget_all _ I HIs)).
+Qed.
+
+(* the scenario of app/export.go: no MarkerAccount in the auth genesis, the BaseAccount left at
+   every marker's address carries the marker's account number *)
+Lemma marker_import_export : forall mv nv other next s g,
+  marker_wf mv nv s -> marker_export s = Some g ->
+  (forall k m, In (k, m) (mks_accounts s) -> other (mr_addr m) = Some (mr_accnum m)) ->
+  marker_import mv nv [] other next g = Some s.
+Proof.
+  intros mv nv other next s g Hwf Hex Hother.
+  destruct (export_ok mv nv s Hwf) as [ms [Hms HF2]].
+  destruct s as [p accs I deny navs]. unfold marker_export in Hex.
+  cbn [mks_params mks_accounts mks_index mks_deny mks_navs] in *.
+  rewrite Hms in Hex. injection Hex as Hex. subst g.
+  apply (marker_import_rest mv nv [] other next p accs I deny navs ms accs I 0%N Hwf HF2).
+  destruct Hwf as (Hs & Hacc & HI & _). cbn [mks_accounts mks_index] in Hs, Hacc, HI.
+  assert (Hok : acc_ok mv accs) by (split; assumption).
+  assert (HIs : tsorted I) by (rewrite HI; apply tbuild_sorted).
+  assert (Hall : Forall (fun m => tget (k_account (mr_addr m)) accs = Some m /\ mv m = true /\
+                                 other (mr_addr m) = Some (mr_accnum m)) ms).
+  { rewrite Forall_forall. intros m Hm.
+    destruct (Forall2_In_right _ _ _ _ _ _ HF2 Hm) as [e [_ (Hg & Ha & _ & Hv & _)]].
+    rewrite Ha. split; [exact Hg|]. split; [exact Hv|]. rewrite <- Ha.
+    apply (Hother (k_account (snd e))). apply tget_In. exact Hg. }
+  assert (Hsub : forall k x, tget k (@nil (key * marker)) = Some x -> tget k accs = Some x).
+  { intros k x H. cbn [tget] in H. discriminate H. }
+  pose proof (marker_fold_fresh mv other next accs ms [] [] 0%N (SSorted_nil _) Hsub Hall) as Hfold.
+  etransitivity; [exact Hfold|].
+  fold (tbuild (map (fun m => (k_account (mr_addr m), m)) ms)).
+  fold (tbuild (map (fun m => (k_marker (mr_addr m), mr_addr m)) ms)).
+  rewrite (registry_of_exported mv accs I ms HF2). rewrite (tbuild_self _ I HIs).
+  rewrite HI in HF2. rewrite (accounts_rebuilt mv accs ms Hok HF2). reflexivity.
 Qed.
